@@ -23,7 +23,7 @@ COMPONENTS = {
 ASSUMPTIONS = ['the glue replaces the pybind11 argument conversion; 20k random next_cut calls agree with the pre-built extension (selftest)']
 PROBES = ['unaligned_max', 'min_eq_max', 'max_lt_8', 'empty_pieces', 'one_byte_pieces', 'piece_eq_max', 'tail_rule_half', 'stream_gt_2max']
 TIERS = {'quick': {'budget_s': 45, 'batch': 50}, 'thorough': {'budget_s': 600, 'batch': 100}}
-KNOWN_UNALIGNED_FRACTION = 0.06
+KNOWN_UNALIGNED_FRACTION = 0.2     # unaligned maxima (once a known finding, fixed since) stay well represented
 
 
 def gen_params(rng):
